@@ -54,3 +54,8 @@ package packagerender
 //@   ensures [C13] forall a int :: { result[a] } 0 <= a && a < len(result) ==> (colKey(sortperm(1, a)) in c) && result[a] == c[colKey(sortperm(1, a))].Phase && len(result[a].Objects) != 0
 //@   ensures [C13] forall a int, b int :: { result[a], result[b] } 0 <= a && a < b && b < len(result) ==> c[colKey(sortperm(1, a))].Index <= c[colKey(sortperm(1, b))].Index && colKey(sortperm(1, a)) != colKey(sortperm(1, b))
 //@   ensures [C13] forall k string :: { colPos(k) } (k in c) && len(c[k].Phase.Objects) != 0 ==> 0 <= sortperminv(1, colPos(k)) && sortperminv(1, colPos(k)) < len(result) && colKey(sortperm(1, sortperminv(1, colPos(k)))) == k
+
+// Package Operator's control annotations are removed: the annotations an object is collected with contain none of the
+// four annotation keys the package format defines (phase, condition-map, collision-protection, CEL condition).
+//@ func package-operator.run/internal/packages/internal/packagerender.(phaseCollector).AddObjects
+//@   at SetAnnotations assert [C13] arg0 == nil || (!("package-operator.run/phase" in arg0) && !("package-operator.run/condition-map" in arg0) && !("package-operator.run/collision-protection" in arg0) && !("package-operator.run/condition" in arg0))
